@@ -166,10 +166,17 @@ class EquitySwap:
         if (eq_freq is None or rate_freq is None) or (not is_multiple):
             raise FinError("Invalid frequency type assigned!")
 
+        # every rate period accrues on the notional fixed at the last equity
+        # reset on or before its start (with a stub the equity periods do not
+        # all contain the same number of rate periods)
+        eq_end_dts = self.equity_leg.end_accd_dts
+        last_notionals = self.equity_leg.last_notionals
         self.rate_leg.notional_array = []
-        for last_notional in self.equity_leg.last_notionals:
-            for _ in range(multiple):
-                self.rate_leg.notional_array.append(last_notional)
+        i_eq = 0
+        for start_dt in self.rate_leg.start_accrued_dts:
+            while i_eq + 1 < len(eq_end_dts) and start_dt >= eq_end_dts[i_eq]:
+                i_eq += 1
+            self.rate_leg.notional_array.append(last_notionals[i_eq])
 
     ###########################################################################
 
